@@ -300,5 +300,8 @@ class Run:
         if self.inconclusive and len(self.inconclusive) > max(3, self.evaluations // 100):
             log(f"[{self.pid}] INCONCLUSIVE: {len(self.inconclusive)} cases could not be judged, e.g. {self.inconclusive[:3]}")
             return EXIT_INCONCLUSIVE
+        if self.extra.get("harness_errors"):
+            log(f"[{self.pid}] INCONCLUSIVE: a worker failed; {self.evaluations} evaluations by the others showed no violation")
+            return EXIT_INCONCLUSIVE
         log(f"[{self.pid}] held on {self.evaluations} evaluations ({len(self.shapes)} distinct non-trivial shapes), tier={self.tier} seed={self.seed}, {wall:.1f}s")
         return EXIT_OK
